@@ -27,6 +27,10 @@ EXTRA_SEEDS = [
     # arities that do not agree in pipelines, use and captures (too many / too few arguments, piping into a value)
     'fn one() { 1 }\nfn two(a, b) { a }\nfn p() { 2 |> one(3) }\nfn q() { 2 |> one }\nfn r() { 1 |> two(2, 3, 4) }\nfn s() { 1 |> two }\n'
     'fn t() { use x, y <- two(1) x }\nfn u() { two(_, _, _) }\nfn v() { one(1)(2) }\nfn w() { 1 |> 2 |> one() }\n',
+    # values of different custom types of two modules forced together (ill-typed): list elements, equality, case branches
+    ('import m2\npub type Fruit { Apple Pear }\npub fn mix() { [Apple, m2.W] }\npub fn eq(x: Fruit, y: m2.T) { x == y }\n'
+     'pub fn br(c) { case c { True -> Apple False -> m2.W } }\npub fn back() { [m2.W, Pear] }\n',
+     'import m1\npub type T { W }\npub fn other() { [W, m1.Apple] }\n'),
     # non-ASCII text in comments, strings and broken places
     '//// модуль 日本語\n/// док 💣\npub fn h() { "こんにちは" <> "é" } // конец\nconst k = "กขค"\nfn i() { let s = "💣💣" s }\n',
     # mutual recursion / recursion groups (the functions of one group are inferred together)
@@ -79,6 +83,7 @@ def seeds(out, tier, seed, n_gen):
     for c in picks:
         l = [t["t"] for t in c["out"] if t["r"] not in ("open", "close") and t["t"]]
         res.append({"files": [{"name": "m1", "lex": l}, {"name": "m2", "lex": liblex}]})
+    res += RAW_SEEDS
     for t in EXTRA_SEEDS:
         if isinstance(t, tuple):
             res.append({"files": [{"name": f"m{i + 1}", "lex": lex(x)} for i, x in enumerate(t)]})
@@ -96,6 +101,15 @@ def seeds(out, tier, seed, n_gen):
 
 
 TAILS = ["// é", "// …", "// 💣", "\"ß"]
+
+
+# seeds given as lexemes (for files whose last comment has no line break): a module that is only a doc header
+RAW_SEEDS = [
+    {"files": [{"name": "m1", "lex": ["import", "m2", "pub", "fn", "f", "(", ")", "{", "m2", ".", "x", "}"]},
+               {"name": "m2", "lex": ["//// the module\n", "//// more é"]}]},
+    {"files": [{"name": "m1", "lex": ["import", "m2", "import", "m3", "fn", "f", "(", ")", "{", "m3", ".", "y", "(", "m2", ".", "x", ")", "}"]},
+               {"name": "m2", "lex": ["//// x"]}, {"name": "m3", "lex": ["/// y\n", "pub", "fn", "y", "(", "a", ")", "{", "a", "}", "// end 💣"]}]},
+]
 
 
 def extra_truncations():
